@@ -13,6 +13,7 @@ import sys
 sys.path.insert(0, os.path.join(os.path.dirname(os.path.abspath(__file__)), '..'))
 from common import Check
 from harness import solver_toy as T
+from props import t_C04
 from fractions import Fraction as Fr
 
 
@@ -185,7 +186,10 @@ def main():
                'distinct = distinct (label, configuration); all recorded values compared with the Coq model; oracle = independent '
                'recomputation with Fractions of every unknown, equation argument, loss entry, accumulated gradient and SGD step')
     ck.step_hygiene()
-    ck.step_prove('P_C04')
+    # regenerate coq/gen/Gen_C04.v from the current solvers.py (fail-closed); P_C04 proves the generated
+    # definitions equal to the model's, so a source change that alters them breaks the proof
+    if t_C04.step_generate(ck):
+        ck.step_prove('P_C04')
     camp = T.Campaign(ck, 'C04', oracle)
     if ck.replay:
         payload = json.load(open(ck.replay))
